@@ -37,7 +37,7 @@ def att_text(rng, root):
         gen.gen_blocks(rng, W, 0, 3, out, True, rng.randint(0, 2))
     for _ in range(rng.randint(1, 4)):
         att_forest(rng, W, 0, 0, out)
-    t = '\n'.join(out) + '\n'
+    t = '\n'.join(gen.expand_breaks(l) for l in out) + '\n'
     return gen.mutate(rng, t, 1) if rng.random() < 0.15 else t
 
 def _oracle(args):
